@@ -19,6 +19,12 @@ Theorem C11_src_calls_are_coded : src_calls = coded_calls.
 Proof. vm_compute. reflexivity. Qed.
 Print Assumptions C11_src_calls_are_coded.
 
+(* declared weights reach the fitness function for single- and multi-readout targets alike, and a
+   scalar weight is expanded to the shape of the fitted target region *)
+Theorem C11_src_weights_are_coded : src_weights = coded_wconf.
+Proof. vm_compute. reflexivity. Qed.
+Print Assumptions C11_src_weights_are_coded.
+
 (* ------------------------------------------------------------------ range checker *)
 
 (* for all declared ranges (ordered, non-negative numbers; absent components allowed), target sizes
@@ -89,8 +95,8 @@ Print Assumptions C11_ctor_rejects_exceeding.
 (* ... so no problem object exists (nothing is optimised) for a target range exceeding the target *)
 Theorem C11_exceeding_never_optimised : forall c sims,
   fc_bypass c = false ->
-  model_fit src_checker src_calls c sims <> OCtor -> target_inside c = true.
-Proof. rewrite C11_src_checker_is_coded, C11_src_calls_are_coded. exact coded_model_fit_inside. Qed.
+  model_fit src_checker src_calls src_weights c sims <> OCtor -> target_inside c = true.
+Proof. rewrite C11_src_checker_is_coded, C11_src_calls_are_coded. exact (coded_model_fit_inside src_weights). Qed.
 Print Assumptions C11_exceeding_never_optimised.
 
 (* a 2 x 3 target on a 4 x 3 detector: rows 0..2 are accepted, rows 1..3 (inside the detector, beyond
@@ -170,12 +176,26 @@ Definition ex_conf (multi : bool) : fconf :=
      fc_tgts := [ [ [[Some 0]]; [[Some 0]] ] ]; fc_bypass := false |}.
 Definition ex_sims : list frame3 := [ [ [[Some 1]]; [[Some 1]] ] ].
 
-(* multi-readout targets: the declared weights are dropped (value 2 instead of 3 * 2) *)
-Theorem C11_weights_multi_refuted :
+(* the problem object as a whole (2-D target range, no target left without a processor; single- and
+   multi-readout targets, no weights / scalar weights / weight files alike): whenever problem.fitness
+   yields anything at all, it is the declared figure of merit — the configured function applied to
+   result[result range] and target[target range] with the weight of pair k, summed over ALL targets *)
+Theorem C11_fitness_is_declared : forall c sims tr tc,
+  fc_trng c = FR2 tr tc -> (length (fc_tgts c) <= length sims)%nat ->
+  model_fit src_checker src_calls src_weights c sims = OCtor \/
+  model_fit src_checker src_calls src_weights c sims = OUndef \/
+  model_fit src_checker src_calls src_weights c sims = fobs_of (declared_sum (term_declared c) sims (fc_tgts c)).
+Proof. rewrite C11_src_weights_are_coded. intros c sims tr tc. apply model_fit_is_declared. Qed.
+Print Assumptions C11_fitness_is_declared.
+
+(* multi-readout target with a scalar weight 3: value 3 * 2 (the weights used to be dropped: 2);
+   the statement is discriminating: with the weights configuration of the tree before the repair the
+   same configuration gives 2 *)
+Example C11_fitness_is_declared_nonvacuous :
   spec_fit (ex_conf true) ex_sims = Some (OVal (6 # 1)) /\
-  fobs_agree true (model_fit src_checker src_calls (ex_conf true) ex_sims) (OVal (2 # 1)) = true.
+  model_fit src_checker src_calls src_weights (ex_conf true) ex_sims = OVal (6 # 1) /\
+  fobs_agree true (model_fit src_checker src_calls legacy_wconf (ex_conf true) ex_sims) (OVal (2 # 1)) = true.
 Proof. vm_compute. auto. Qed.
-Print Assumptions C11_weights_multi_refuted.
 
 Example C11_fitness_is_sum_nonvacuous :
   let c := {| fc_ff := FSq; fc_multi := false;
@@ -185,7 +205,7 @@ Example C11_fitness_is_sum_nonvacuous :
               fc_tgts := [ [ [[Some 0; Some 1]] ]; [ [[Some 3; None]] ] ]; fc_bypass := false |} in
   let sims := [ [ [[Some 1; Some 3]] ]; [ [[Some 1; Some 7]] ] ] in
   (* 2*(1+4) + 5*(4) = 30; model = specification *)
-  fobs_agree true (model_fit src_checker src_calls c sims) (OVal (30 # 1)) = true /\
+  fobs_agree true (model_fit src_checker src_calls src_weights c sims) (OVal (30 # 1)) = true /\
   spec_fit c sims = Some (OVal (30 # 1)).
 Proof. vm_compute. auto. Qed.
 
